@@ -46,6 +46,16 @@ def utf8Width (c : Nat) : Nat := if c < 0x80 then 1 else if c < 0x800 then 2 els
 /-- `len(s)` of the Go string. -/
 def byteLen (s : Str) : Nat := (s.map utf8Width).sum
 
+/-- UTF-8 bytes of a scalar value. -/
+def utf8Bytes (c : Nat) : List Nat :=
+  if c < 0x80 then [c]
+  else if c < 0x800 then [0xC0 + c / 64, 0x80 + c % 64]
+  else if c < 0x10000 then [0xE0 + c / 4096, 0x80 + c / 64 % 64, 0x80 + c % 64]
+  else [0xF0 + c / 262144, 0x80 + c / 4096 % 64, 0x80 + c / 64 % 64, 0x80 + c % 64]
+
+/-- `[]byte(s)` of the Go string. -/
+def encodeUtf8 (s : Str) : List Nat := s.flatMap utf8Bytes
+
 /-! ### Lexical level -/
 
 def isWs (c : Nat) : Bool := c == 32 || c == 9 || c == 10 || c == 13
